@@ -171,7 +171,7 @@ func (s *Server) PushBlock(blk *pbbstream.Block) error {
 	defer s.lock.RUnlock()
 
 	s.SetHeadInfo(blk.Number, blk.Id, blk.Time(), blk.LibNum)
-	if s.buffer != nil {
+	if s.buffer != nil && s.bufferSize > 0 {
 		if s.buffer.Len() >= s.bufferSize {
 			s.buffer.Delete(s.buffer.Tail())
 		}
